@@ -73,6 +73,12 @@ CHECKS["C11"] = dict(
     text="Design: every interleaving for small constants including the caller's re-assignment of the table between runs. Code: each real run is validated against the trace specification; a run that does not finish within 20 s with its goroutines blocked in processing.* is recorded as a Hang event, goroutines left behind as a non-zero leak count - neither is a behaviour of the specification.",
     note=PIPENOTE + " Data-race freedom of the real GeoPackage writers is observed by the race detector in the C12/C13 drivers and logged as a fact.")
 
+CHECKS["C12"] = dict(
+    category="model_checking", design_ref="DESIGN.md §7 C12",
+    technique="TLA+ model of the paged writer (Paging.tla: Recv / FlushFull / FlushFinal) checked exhaustively by TLC; observations of a real TargetGeopackage (row counts after every send via a second SQLite connection, final rows/rtree/extent/schema) validated against PagingTrace.tla",
+    text="Design: all page sizes 1..4 x counts 0..13 x empty-geometry subsets (conservation, pages full, completeness, termination). Code: for every page size 1..5 (1..12 thorough) and every count 0..3P+1 a random source table is read by the real SourceGeopackage and written by the real TargetGeopackage; the observation sequence must be a behaviour of the specification, whose final guard demands one row per feature in order with intact values, the exact spatial-index id set, the exact integer extent and matching schema metadata.",
+    note="Trusted: TLC; the verif-tagged SQLite stub for libspatialite; DeepEqual comparison of values/geometries in the harness; SQLite itself.")
+
 NOT_YET = {}
 
 ALL = ["C%02d" % i for i in range(1, 19)]
